@@ -1199,8 +1199,12 @@ func c11Random(ctx *vkit.Ctx, cs *vkit.Case) {
 	r := cs.R
 	n := r.Range(2, 6)
 	nodes := make([]string, n)
+	colon := cs.Idx%4 == 3 // node ids containing the "::" separator of the internal graph ids
 	for i := range nodes {
 		nodes[i] = fmt.Sprintf("n%d", i)
+		if colon && i%2 == 1 {
+			nodes[i] = fmt.Sprintf("s::n%d::x", i)
+		}
 	}
 	rels := []string{"r", "s", "u"}[:r.Range(1, 3)]
 	noVec := map[string]bool{}
@@ -1370,16 +1374,31 @@ var c11ShapeNames = []string{
 	"dense_cyclic", "two_way_chain", "parallel_relations", "lollipop",
 }
 
+// c11ColonIDs: in a third of the cases every second node id contains the "::" separator of the
+// internal graph ids (the product creates such ids itself: session::..., _profile::..., summary::...).
+// Set per case from the case PRNG (cases of a shard run one after the other).
+var c11ColonIDs bool
+
 func c11Names(n int) []string {
 	out := make([]string, n)
 	for i := range out {
 		out[i] = string(rune('a' + i))
+		if c11ColonIDs {
+			switch i % 3 {
+			case 1:
+				out[i] = "s::" + out[i]
+			case 2:
+				out[i] = out[i] + "::x::y"
+			}
+		}
 	}
 	return out
 }
 
 func c11Shape(ctx *vkit.Ctx, cs *vkit.Case) {
 	r := cs.R
+	c11ColonIDs = cs.Idx%3 == 2
+	defer func() { c11ColonIDs = false }()
 	kind := c11ShapeNames[cs.Idx%len(c11ShapeNames)]
 	variant := cs.Idx / len(c11ShapeNames)
 	var nodes []string
